@@ -388,3 +388,47 @@ def align_up(rep, idx, rule):
             rep.ok(rule, site, "_align_up moves to the next multiple", "closed form", nontrivial=False)
         else:
             rep.unk(rule, site, "_align_up result", f"unrecognised shape {ir.show(r)[:120]}")
+
+
+def chunk_width(rep, rule, idx, c, SH=None):
+    """Every shadow chunk is exactly one bus word wide: Chunk.data = Signal(<shadow>.granularity), the shadow's
+    granularity is its first constructor argument, and elaborate() creates both shadows with the bus data width.  A
+    narrower chunk silently truncates register bits on their way through the shadow; a wider one shifts every later
+    chunk of a multi-word register."""
+    from .common import get_ctor
+    site = c.fi.site
+    try:
+        ch = get_ctor(idx, "csr/bus:Multiplexer._Shadow.Chunk")
+        sh = get_ctor(idx, "csr/bus:Multiplexer._Shadow")
+    except Exception as e:                                  # role discovery failed
+        rep.unk(rule, site, "shadow chunk width", f"constructors of _Shadow / Chunk not found: {e}")
+        return
+    st = ch.stores.get("self.data")
+    shadow_param = ch.fi.params[1] if len(ch.fi.params) > 1 else None
+    if st is None or shadow_param is None:
+        rep.unk(rule, ch.fi.site, "chunk data register", "Chunk.__init__ does not create self.data")
+        return
+    v = ch.norm(st[0])
+    gran_attr = None
+    ok = v[0] == 'call' and v[1] == ('name', 'Signal') and v[2] and v[2][0][0] == 'attr' and v[2][0][1] == ('name', shadow_param)
+    if ok:
+        gran_attr = v[2][0][2]
+    rep.form(ok, rule, ch.fi.site, "chunk data register is as wide as the shadow's granularity", f"created as {ir.show(v)[:100]}",
+             wrong=None if ok or not (v[0] == 'call' and v[1] == ('name', 'Signal')) else
+             ("the chunk register has no explicit width (one bit): all but bit 0 of every bus word is lost" if not v[2] else None))
+    if not ok:
+        return
+    # the attribute read by Chunk is the shadow's first constructor argument
+    src = sh.stores.get(f"self.{gran_attr}") or sh.stores.get(f"self._{gran_attr}")
+    first = sh.fi.params[1] if len(sh.fi.params) > 1 else None
+    rep.form(src is not None and sh.norm(src[0]) == ('name', first), rule, sh.fi.site,
+             f"the shadow's {gran_attr} is its first constructor argument", f"self.{gran_attr} = {ir.show(src[0]) if src else None}")
+    shadows = [o for o in c.t.objs.values() if o.ctor[0] == 'call' and ir.show(o.ctor[1]).endswith("_Shadow")]
+    rep.form(len(shadows) == 2, rule, site, "elaborate() creates the read and the write shadow", f"{len(shadows)} shadow object(s)")
+    if SH is not None and SH[0] == 'obj':
+        shadows = [o for o in shadows if o.id == SH[1]]
+    for o in shadows:
+        a0 = c.norm(o.ctor[2][0]) if o.ctor[2] else dict(o.ctor[3]).get(first)
+        a0 = c.norm(a0) if a0 is not None else None
+        rep.check(a0 == c.parse("self.bus.data_width"), rule, site, f"{o.name}: chunk width == bus data width",
+                  f"created with granularity {ir.show(a0) if a0 else None}; expected self.bus.data_width")
